@@ -337,7 +337,6 @@ func bigStruct() RecordSpec {
 	return r
 }
 
-
 // TextOnly folds File.Generate over one batch and returns the emitted text
 // without parsing it (used to compare folds that differ in map iteration order).
 func (g *Gen) TextOnly(recs []RecordSpec, o geneval.Options, reverseMaps bool) (text, genErr string, err error) {
